@@ -292,7 +292,7 @@ def stepOp (s : St) (toks : List String) : St × String :=
       | "aconcat", ps =>
         let parts : Option (List Part) := ps.mapM (fun p =>
           match regOf 'A' NA p, tupleOf p, valOf p with
-          | some j, _, _ => some (if j == r then Part.self else Part.many (s.A.getD j default).items)
+          | some j, _, _ => some (if j == r then Part.self else Part.other (s.A.getD j default).items (s.A.getD j default).isNull)
           | _, some l, _ => some (Part.many l)
           | _, _, some v => some (Part.one v)
           | _, _, _ => none)
